@@ -176,3 +176,96 @@ def setdata_updates_task(chk, rule: str):
         wit = must_pass(fsd.cfg, lambda n: node_calls(n, "pdo_parent.update"), from_node=w)
         chk.check(wit is None, rule, f"{PB}:PdoVariable.set_data | task refreshed after `{src(w.ast)[:40]}`", sd.loc(w.ast),
                   "pdo_parent.update() runs before the data is changed: the cyclic transmission is refreshed with the old payload")
+
+
+MUTABLE_CALLS = {"list", "dict", "set", "bytearray", "defaultdict", "OrderedDict", "deque", "queue.Queue", "Queue", "collections.deque",
+                 "collections.defaultdict", "collections.OrderedDict", "array.array"}
+MUTATORS = {"append", "extend", "insert", "pop", "remove", "clear", "update", "setdefault", "add", "discard", "popitem", "put", "put_nowait", "sort", "reverse",
+            "appendleft", "popleft", "get_nowait"}
+BUFFER_SINKS = {"pack_into", "readinto", "recv_into"}
+
+
+def _is_mutable_value(val) -> bool:
+    return isinstance(val, (ast.List, ast.Dict, ast.Set, ast.ListComp, ast.DictComp, ast.SetComp)) or \
+        (isinstance(val, ast.Call) and (dotted(val.func) or "") in MUTABLE_CALLS)
+
+
+def _subclasses(repo, c):
+    return [k for m in repo.modules.values() for k in m.classes.values() if k is not c and c in repo.mro(k)]
+
+
+def _mutations_of(fn_node, expr_src: str):
+    """Statements/calls inside fn_node that mutate the object denoted by the expression text `expr_src` in place,
+    directly or through a local alias bound to it."""
+    hits = []
+    aliases = {expr_src}
+    for n in own_nodes(fn_node):
+        if isinstance(n, ast.Assign) and len(n.targets) == 1 and isinstance(n.targets[0], ast.Name) and src(n.value) == expr_src:
+            aliases.add(n.targets[0].id)
+    for n in own_nodes(fn_node):
+        if isinstance(n, (ast.Assign, ast.AugAssign, ast.Delete)):
+            tg = n.targets if isinstance(n, (ast.Assign, ast.Delete)) else [n.target]
+            for t in tg:
+                if isinstance(t, ast.Subscript) and src(t.value) in aliases:
+                    hits.append(n)
+            if isinstance(n, ast.AugAssign) and src(n.target) in aliases:
+                hits.append(n)
+        if isinstance(n, ast.Call) and isinstance(n.func, ast.Attribute):
+            if src(n.func.value) in aliases and n.func.attr in MUTATORS:
+                hits.append(n)
+            if n.func.attr in BUFFER_SINKS and any(src(a) in aliases for a in n.args[:2]):
+                hits.append(n)
+    return hits
+
+
+def isolation(chk, rule: str, rels=None):
+    """No class keeps state in a mutable class-level object that instances mutate in place (every instance, i.e. every
+    node / client / map / dictionary, would share it), and the codec objects shared through class-level tables are
+    stateless.  `rels`: module paths whose classes matter to the calling property (None = whole package)."""
+    repo, folder = ctx(chk)
+    n_cls = 0
+    # attribute names defined per instance somewhere (to avoid blaming `x.name.add()` on a class that merely shares the name)
+    inst_attrs = {}
+    for m in repo.modules.values():
+        for c in m.classes.values():
+            ini = c.methods.get("__init__")
+            if ini is not None:
+                for n in own_nodes(ini.node):
+                    if isinstance(n, (ast.Assign, ast.AnnAssign)):
+                        for t in (n.targets if isinstance(n, ast.Assign) else [n.target]):
+                            if isinstance(t, ast.Attribute) and dotted(t.value) == "self":
+                                inst_attrs.setdefault(t.attr, set()).add(c.name)
+    for m in repo.modules.values():
+        if rels is not None and m.rel not in rels:
+            continue
+        for c in m.classes.values():
+            n_cls += 1
+            for name, val in c.consts.items():
+                if not _is_mutable_value(val):
+                    continue
+                family = [c] + _subclasses(repo, c)
+                rebound = any("__init__" in k.methods and any(isinstance(n, (ast.Assign, ast.AnnAssign)) and any(
+                    dotted(t) == f"self.{name}" for t in (n.targets if isinstance(n, ast.Assign) else [n.target])) for n in own_nodes(k.methods["__init__"].node)) for k in family)
+                if rebound:
+                    continue
+                hits = []
+                for k in family:
+                    for meth in k.methods.values():
+                        for h in _mutations_of(meth.node, f"self.{name}"):
+                            hits.append((meth, h))
+                # mutation through another object's attribute chain (`od.device_information.allowed_baudrates.add(...)`)
+                if not hits and name not in inst_attrs:
+                    for m2 in repo.modules.values():
+                        for f2 in list(m2.funcs.values()) + [mm for cc in m2.classes.values() for mm in cc.methods.values()]:
+                            for n in own_nodes(f2.node):
+                                if isinstance(n, ast.Call) and isinstance(n.func, ast.Attribute) and n.func.attr in MUTATORS and isinstance(n.func.value, ast.Attribute) \
+                                        and n.func.value.attr == name and dotted(n.func.value.value) not in ("self", None):
+                                    hits.append((f2, n))
+                if hits:
+                    meth, n = hits[0]
+                    chk.bad(rule, f"{m.rel}:{c.name}.{name} | shared mutable class attribute", meth.loc(n),
+                            f"`{name} = {src(val)}` is one class-level object and `{src(n)[:60]}` mutates it in place: every instance of {c.name} shares it, "
+                            f"so what one node / client / map / dictionary does shows up in all the others")
+    chk.ok(rule, f"{'package' if rels is None else ', '.join(sorted(rels))} | no class-level mutable state mutated in place", "canopen/", f"scanned {n_cls} classes")
+    t = ast.parse("class S:\n    _buffer = bytearray()\n    def f(self, d):\n        b = self._buffer\n        b[:] = d\n")
+    chk.fixture(rule, "class-level bytearray mutated through an alias", _is_mutable_value(t.body[0].body[0].value) and bool(_mutations_of(t.body[0].body[1], "self._buffer")))
